@@ -42,7 +42,7 @@ def script_module(s):
 
 def proj(pid, module, op, line):
     """the observables of `line` that property `pid` talks about"""
-    if line in ("PANIC", "NOOBJ") or line.startswith("BADOP") or line.startswith("UNSUPPORTED"):
+    if line in ("PANIC", "NOOBJ", "TIMEOUT", "<missing>") or line.startswith("BADOP") or line.startswith("UNSUPPORTED"):
         return line
     t = line.split()
     if module == "midi":
@@ -93,7 +93,23 @@ def proj(pid, module, op, line):
     return line
 
 
+CONST_MODULES = {"C01": ["adsr"], "C02": ["adsr"], "C03": ["adsr"], "C04": ["midi"], "C05": ["midi"], "C06": ["midi"],
+                 "C07": ["quant"], "C08": ["quant"], "C09": ["quant"], "C10": ["lfo"], "C11": ["lfo"], "C12": ["lfo"],
+                 "C13": ["glide"], "C14": ["glide"], "C15": ["ribbon"], "C16": ["ribbon"],
+                 "C17": ["adsr", "lfo", "quant", "midi", "ribbon", "glide"], "C18": ["midi"], "C19": ["quant"],
+                 "C20": ["adsr", "quant", "midi"]}
+
+
 def scripts_for(pid, rng, tier):
+    """the generated scripts of a property, plus the compiled-constants script of its module(s)"""
+    res = scripts_for_module(pid, rng, tier)
+    res.append(G.consts_script("prim-consts", CONST_MODULES[pid]))
+    if pid in ("C20", "C01", "C07"):
+        res.append(G.conv_script(rng, "prim-conv", 120 if tier == "quick" else 2000))
+    return res
+
+
+def scripts_for_module(pid, rng, tier):
     k = 1 if tier == "quick" else 12
     if pid in ("C01", "C03"):
         return G.adsr_scripts(rng, 25 * k, 14 * k, 8 * k) + \
@@ -223,7 +239,7 @@ def compare(pid, scripts, impl, model):
 def monitor_all(pid, scripts, impl):
     fails = []
     for s in scripts:
-        if script_module(s) in PRIM_MODULES:
+        if script_module(s) in PRIM_MODULES and not (pid == "C20" and s.meta.get("family") == "conversions"):
             continue
         outs = impl.get(s.sid, [])
         for mon in M.MONITORS[pid]:
@@ -260,6 +276,8 @@ def lfo_exhaustive_sweep():
     def one(side_script):
         side, sc = side_script
         rc, out = C.run_side(side, "release", sc.text(), timeout=3000)
+        if rc == 124 and side == "model":
+            raise C.ModelTimeout("the extracted model did not finish the exhaustive sweep shard %s within 3000 s" % sc.sid)
         return side, sc.sid, [l for l in out if l.startswith("h=")]
     jobs = [("impl", sc) for sc in shards] + [("model", sc) for sc in shards]
     res = {}
@@ -288,7 +306,9 @@ def c09_differential(scripts, impl):
                 ops = ["quant.new"] + (["forbid " + ",".join(forb)] if forb else []) + [s.ops[i]]
                 probes.append((C.Script("%s#%d" % (s.sid, i), ops, {"module": "quant"}), s, i, outs[i]))
     if len(probes) > 4000:
-        probes = probes[:4000]
+        # an even sample over the whole list (script order = family order), not its first 4000
+        step = len(probes) / 4000.0
+        probes = [probes[int(k * step)] for k in range(4000)]
     res = run_impl([p[0] for p in probes])
     fails = []
     for (ps, s, i, line) in probes:
@@ -493,11 +513,19 @@ def main():
             diffs = compare(pid, scripts, impl, model)
             if pid == "C17":
                 # release build: same scripts must not misbehave either (no debug-only guards there)
-                impl_rel = run_impl([s for s in scripts if s.meta.get("family") != "extreme"], "release")
-                for s in scripts:
+                rel_scripts = [s for s in scripts
+                               if not (s.meta.get("family") == "extreme" and script_module(s) in ("lfo", "glide"))]
+                impl_rel = run_impl(rel_scripts, "release")
+                for s in rel_scripts:
                     o = impl_rel.get(s.sid)
-                    if o is not None and "PANIC" in o:
-                        fails.append((s, o.index("PANIC"), "panic in the release build in `%s`" % s.ops[o.index("PANIC")]))
+                    if o is None:
+                        fails.append((s, 0, "no output at all from the release build (crash?)"))
+                    elif "PANIC" in o:
+                        if M.mon_C17(s, o):
+                            fails.append((s, o.index("PANIC"), "panic in the release build in `%s`" % s.ops[o.index("PANIC")]))
+                    elif len(o) < len(s.ops) or "TIMEOUT" in o:
+                        k = min(len(o), len(s.ops) - 1)
+                        fails.append((s, k, "the release build did not return from `%s` (hang or abort)" % s.ops[k]))
         else:
             impl = run_impl(scripts, "debug")
         fails += monitor_all(pid, scripts, impl)
@@ -563,6 +591,26 @@ def main():
                 matched = kf
         if matched:
             print("KNOWN-FINDING: property=%s %s" % (pid, matched.get("what", "")))
+            # a listed finding suppresses only itself: any other failing script, and anything that no longer
+            # checks, is still reported
+            others = []
+            for (s_o, i_o, msg_o) in fails[1:]:
+                if not re.search(matched.get("match", "$^"), msg_o):
+                    others.append((s_o, i_o, msg_o))
+            if others:
+                s_o, i_o, msg_o = others[0]
+                path = write_replay(pid, seed, "impl-violation", s_o,
+                                    {"message": msg_o, "failing_scripts": len(others), "also_broken": broken})
+                violations.append("VIOLATION property=%s replay=%s" % (pid, path))
+                print("violation: %s" % msg_o)
+            elif broken:
+                s_b = diffs[0][0] if diffs else None
+                path = write_replay(pid, seed, "proof-or-correspondence-broken", s_b,
+                                    {"no_longer_checks": broken, "searched_scripts": len(scripts) + searched,
+                                     "note": "beside the listed known finding, something no longer checks"})
+                violations.append("VIOLATION property=%s replay=%s no-failing-input-found" % (pid, path))
+                for b in broken:
+                    print("broken: " + b[:600])
         else:
             path = write_replay(pid, seed, "impl-violation", small,
                                 {"message": msg2, "failing_scripts": len(fails), "also_broken": broken})
@@ -634,9 +682,13 @@ def main():
         "violations": len(violations),
         "notes": notes,
     }
-    os.makedirs(os.path.join(C.VERIF, "evidence"), exist_ok=True)
-    with open(os.path.join(C.VERIF, "evidence", pid + ".json"), "w") as fh:
-        json.dump(evidence, fh, indent=1)
+    if args.skip_proof:
+        # development option: the proof was not re-checked, so this run must not leave evidence of level `proof`
+        print("note: --skip-proof: no evidence file written")
+    else:
+        os.makedirs(os.path.join(C.VERIF, "evidence"), exist_ok=True)
+        with open(os.path.join(C.VERIF, "evidence", pid + ".json"), "w") as fh:
+            json.dump(evidence, fh, indent=1)
 
     for v in violations:
         print(v)
@@ -647,29 +699,74 @@ def main():
 
 
 def replay(pid, path):
+    """re-run a recorded replay on the current tree.  A replay of kind `impl-violation` carries a script whose
+    implementation trace a monitor rejected; one of kind `proof-or-correspondence-broken` records what no longer
+    checked (and, for a correspondence failure, the first script on which the two sides disagreed): it is
+    reproduced by re-checking the proof and by running that script through BOTH sides."""
     with open(path) as fh:
         rec = json.load(fh)
+    kind = rec.get("kind")
+    with C.build_lock():
+        gen_ok, gen_msg = C.gen_consts()
+        ok, out = C.build_harness()
+        if not ok:
+            print(out)
+            return 2
+        bad = False
+        if kind == "proof-or-correspondence-broken":
+            print("recorded as no longer checking:")
+            for b in (rec.get("detail") or {}).get("no_longer_checks", []):
+                print("  " + b[:300])
+            if not gen_ok:
+                print("STILL BROKEN: generation: " + gen_msg)
+                bad = True
+            proof = C.compile_props(pid, interval_ok=(pid in INTERVAL_PROPS)) if gen_ok else {"ok": False, "problems": ["not built"]}
+            if not proof["ok"]:
+                print("STILL BROKEN: proof: " + "; ".join(proof["problems"]))
+                bad = True
+            else:
+                print("proof: %d theorems of Props/%s re-checked" % (proof["n_theorems"], pid))
+            drv_ok, dout = C.build_driver()
+            if not drv_ok:
+                print("STILL BROKEN: the extracted model does not build")
+                bad = True
     if not rec.get("script"):
-        print("replay: no script recorded (%s)" % rec.get("kind"))
-        print(json.dumps(rec.get("detail"), indent=1))
-        return 1
-    ok, out = C.build_harness()
-    if not ok:
-        print(out)
-        return 2
+        if kind != "proof-or-correspondence-broken":
+            print("replay: no script recorded (%s)" % kind)
+            print(json.dumps(rec.get("detail"), indent=1))
+            return 1
+        if bad:
+            print("VIOLATION property=%s replay=%s no-failing-input-found" % (pid, path))
+            return 1
+        print("replay: proof and model build again on the current tree; no script was recorded")
+        return 0
     s = C.Script("replay", rec["script"], rec.get("script_meta") or {})
     o = run_impl([s], "debug").get("replay", [])
-    for op, line in zip(s.ops, o):
-        print("%-40s -> %s" % (op, line))
-    bad = False
-    for mon in M.MONITORS[pid]:
-        for (i, msg) in mon(s, o):
-            print("FAIL at op %d: %s" % (i, msg))
+    if kind == "proof-or-correspondence-broken" and drv_ok:
+        impl, model = run_both([s], "debug")
+        diffs = compare(pid, [s], impl, model)
+        if diffs:
+            _s, i, pa, pb = diffs[0]
+            print("STILL BROKEN: correspondence: op %d `%s`: impl `%s` model `%s`" % (i, s.ops[i] if i < len(s.ops) else "?", pa, pb))
             bad = True
-    if bad:
+        else:
+            print("correspondence: implementation and model agree on the recorded script (%d operations)" % len(s.ops))
+    else:
+        for op, line in zip(s.ops, o):
+            print("%-40s -> %s" % (op, line))
+    mon_bad = False
+    if not (script_module(s) in PRIM_MODULES and not (pid == "C20" and s.meta.get("family") == "conversions")):
+        for mon in M.MONITORS[pid]:
+            for (i, msg) in mon(s, o):
+                print("FAIL at op %d: %s" % (i, msg))
+                mon_bad = True
+    if mon_bad:
         print("VIOLATION property=%s replay=%s" % (pid, path))
         return 1
-    print("replay: the property monitor accepts this trace on the current tree")
+    if bad:
+        print("VIOLATION property=%s replay=%s no-failing-input-found" % (pid, path))
+        return 1
+    print("replay: nothing fails on the current tree")
     return 0
 
 
@@ -679,4 +776,11 @@ if __name__ == "__main__":
     except C.ModelTimeout as exc:
         # a failure of the tooling, not a verdict: no VIOLATION line
         print("check could not complete: %s (raise VERIF_RUN_TIMEOUT)" % exc)
+        sys.exit(2)
+    except SystemExit:
+        raise
+    except Exception:  # an internal error of the tooling is not a verdict either
+        import traceback
+        traceback.print_exc()
+        print("check could not complete: internal error of the tooling (see the traceback above)")
         sys.exit(2)
